@@ -35,6 +35,20 @@ class World:
     pass
 
 
+_LOCS = {}
+
+
+def _cached(fn):
+    def wrapper(n):
+        key = (fn.__name__, n)
+        if key not in _LOCS:
+            _LOCS[key] = fn(n)
+        return list(_LOCS[key])
+
+    return wrapper
+
+
+@_cached
 def hex_locations(n):
     """first n (i, j) hex indices in ring/position order of a full-core HexGrid"""
     from armi.reactor import grids
@@ -52,6 +66,7 @@ def hex_locations(n):
     return out
 
 
+@_cached
 def third_locations(n):
     """first n locations of a third-core (periodic) hex grid that lie in the represented domain"""
     from armi.reactor import geometry, grids
@@ -111,8 +126,9 @@ def make_block(letter, aid, k, geom="hex"):
         b.add(c)
     b.setHeight(HEIGHTS[letter])
     if letter == "F":
-        # a per-block enrichment so number densities differ between otherwise identical fuel blocks
-        b.adjustUEnrich(0.10 + 0.01 * ((aid * 5 + k) % 17))
+        # a per-block U235 content so number densities differ between otherwise identical fuel blocks
+        fuel = comps[0]
+        fuel.setNumberDensity("U235", fuel.getNumberDensity("U235") * (1.0 + 0.01 * ((aid * 5 + k) % 17)))
     return b
 
 
@@ -122,10 +138,15 @@ def make_assembly(aid, letters, geom="hex", assem_num=None):
     cls = assemblies.HexAssembly if geom != "cartesian" else assemblies.CartesianAssembly
     typ = "feed fuel" if "F" in letters else "reflector"
     a = cls(typ, assemNum=assem_num)
-    a.spatialGrid = grids.AxialGrid.fromNCells(len(letters))
-    a.spatialGrid.armiObject = a
+    # what Assembly.add does per block (Composite.add, re-establish order, z-coordinates), done once for the stack:
+    # Assembly.add rebuilds the axial grid on every call, which dominates the build time of a small core
+    from armi.reactor import composites
+
     for k, letter in enumerate(letters, start=1):
-        a.add(make_block(letter, aid, k, geom))
+        b = make_block(letter, aid, k, geom)
+        a._checkPotentialChild(b, "add")
+        composites.Composite.add(a, b)
+    a.reestablishBlockOrder()
     a.calculateZCoords()
     return a
 
@@ -158,7 +179,7 @@ def build_core(layout, fresh, places, n_locs, track=True, stationary=(), geom="h
         core.spatialGrid.geomType = geometry.GeomType.CARTESIAN
         locs = cart_locations(n_locs)
     else:
-        core.spatialGrid = grids.HexGrid.fromPitch(16.0)
+        core.spatialGrid = grids.HexGrid.fromPitch(16.0, numRings=5)
         core.spatialGrid.geomType = geometry.GeomType.HEX
         if symmetry == "third":
             core.spatialGrid.symmetry = str(geometry.SymmetryType(geometry.DomainType.THIRD_CORE, geometry.BoundaryType.PERIODIC))
